@@ -4,6 +4,7 @@ The Python harness sends the same requests to the real implementation and diffs 
 -/
 import Verif.Driver.Codec
 import Verif.Driver.Ops
+import Verif.Driver.SchemaOps
 
 open Lean Verif Verif.Driver
 
@@ -34,8 +35,11 @@ def handle (d : DState) (j : Json) : Except String (DState × Json) := do
       | _, _ => step s c
     return (d.set name s', Json.mkObj [("outcome", outcomeToJson o), ("sess", sessToJson s')])
   | _ =>
-    let r ← pureOp op j
-    return (d, r)
+    match (← schemaOp op j) with
+    | some r => return (d, r)
+    | none =>
+      let r ← pureOp op j
+      return (d, r)
 
 partial def loop (h : IO.FS.Stream) (out : IO.FS.Stream) (d : DState) : IO Unit := do
   let line ← h.getLine
